@@ -150,8 +150,9 @@ package zap
 //@   track FF = call (*internal/stacktrace.Formatter).FormatFrame
 //@   track WR = invoke zapcore.Core.Write
 //@   track AS = invoke zapcore.LevelEnabler.Enabled
-//@   modifies $user, comp(E:zapcore.Core), comp(E:uint8), comp(E:uintptr), buffer.Buffer.bs, stacktrace.Formatter.nonEmpty
+//@   modifies $user, comp(E:zapcore.Core), comp(E:uint8), comp(E:uintptr), stacktrace.Formatter.nonEmpty
 //@   ensures elems_frame(type(zapcore.Core), zero(type([]zapcore.Core)))
+//@   ensures elems_frame(type(uint8), zero(type([]uint8)))
 //@   ensures #WR == 0
 //@   ensures lvl < zapcore.DPanicLevel && !enabled(old(log.core), lvl) ==> result == nil && #NOW == 0 && #CK == 0 && #CAP == 0
 //@   ensures !(lvl < zapcore.DPanicLevel && !enabled(old(log.core), lvl)) ==> #NOW == 1 && #CK == 1 && CK.recv[0] == old(log.core) && CK.arg1[0] == nil && CK.arg0[0].Level == lvl && CK.arg0[0].Message == msg && CK.arg0[0].LoggerName == old(log.name) && CK.arg0[0].Time == NOW.ret0[0]
@@ -174,8 +175,9 @@ package zap
 //@ func (*zap.Logger).Check
 //@   props C05 C06 C15
 //@   flags nopanic
-//@   modifies $user, comp(E:zapcore.Core), comp(E:uint8), comp(E:uintptr), buffer.Buffer.bs, stacktrace.Formatter.nonEmpty
+//@   modifies $user, comp(E:zapcore.Core), comp(E:uint8), comp(E:uintptr), stacktrace.Formatter.nonEmpty
 //@   ensures elems_frame(type(zapcore.Core), zero(type([]zapcore.Core)))
+//@   ensures elems_frame(type(uint8), zero(type([]uint8)))
 //@   requires log != nil && log.core != nil && log.clock != nil && log.addStack != nil && log.errorOutput != nil
 //@   requires 0 <= log.callerSkip && log.callerSkip <= 1 << 20
 //@   track C = call (*zap.Logger).check
@@ -202,8 +204,9 @@ package zap
 //@ func (*zap.Logger).Debug
 //@   props C06 C15 C05
 //@   flags nopanic propagates-panics
-//@   modifies $user, comp(E:zapcore.Core), comp(E:uint8), comp(E:uintptr), buffer.Buffer.bs, stacktrace.Formatter.nonEmpty
+//@   modifies $user, comp(E:zapcore.Core), comp(E:uint8), comp(E:uintptr), stacktrace.Formatter.nonEmpty
 //@   ensures elems_frame(type(zapcore.Core), zero(type([]zapcore.Core)))
+//@   ensures elems_frame(type(uint8), zero(type([]uint8)))
 //@   requires log != nil && log.core != nil && log.clock != nil && log.addStack != nil && log.errorOutput != nil
 //@   requires 0 <= log.callerSkip && log.callerSkip <= 1 << 20
 //@   track C = call (*zap.Logger).check
@@ -215,8 +218,9 @@ package zap
 //@ func (*zap.Logger).Info
 //@   props C06 C15 C05
 //@   flags nopanic propagates-panics
-//@   modifies $user, comp(E:zapcore.Core), comp(E:uint8), comp(E:uintptr), buffer.Buffer.bs, stacktrace.Formatter.nonEmpty
+//@   modifies $user, comp(E:zapcore.Core), comp(E:uint8), comp(E:uintptr), stacktrace.Formatter.nonEmpty
 //@   ensures elems_frame(type(zapcore.Core), zero(type([]zapcore.Core)))
+//@   ensures elems_frame(type(uint8), zero(type([]uint8)))
 //@   requires log != nil && log.core != nil && log.clock != nil && log.addStack != nil && log.errorOutput != nil
 //@   requires 0 <= log.callerSkip && log.callerSkip <= 1 << 20
 //@   track C = call (*zap.Logger).check
@@ -228,8 +232,9 @@ package zap
 //@ func (*zap.Logger).Warn
 //@   props C06 C15 C05
 //@   flags nopanic propagates-panics
-//@   modifies $user, comp(E:zapcore.Core), comp(E:uint8), comp(E:uintptr), buffer.Buffer.bs, stacktrace.Formatter.nonEmpty
+//@   modifies $user, comp(E:zapcore.Core), comp(E:uint8), comp(E:uintptr), stacktrace.Formatter.nonEmpty
 //@   ensures elems_frame(type(zapcore.Core), zero(type([]zapcore.Core)))
+//@   ensures elems_frame(type(uint8), zero(type([]uint8)))
 //@   requires log != nil && log.core != nil && log.clock != nil && log.addStack != nil && log.errorOutput != nil
 //@   requires 0 <= log.callerSkip && log.callerSkip <= 1 << 20
 //@   track C = call (*zap.Logger).check
@@ -241,8 +246,9 @@ package zap
 //@ func (*zap.Logger).Error
 //@   props C06 C15 C05
 //@   flags nopanic propagates-panics
-//@   modifies $user, comp(E:zapcore.Core), comp(E:uint8), comp(E:uintptr), buffer.Buffer.bs, stacktrace.Formatter.nonEmpty
+//@   modifies $user, comp(E:zapcore.Core), comp(E:uint8), comp(E:uintptr), stacktrace.Formatter.nonEmpty
 //@   ensures elems_frame(type(zapcore.Core), zero(type([]zapcore.Core)))
+//@   ensures elems_frame(type(uint8), zero(type([]uint8)))
 //@   requires log != nil && log.core != nil && log.clock != nil && log.addStack != nil && log.errorOutput != nil
 //@   requires 0 <= log.callerSkip && log.callerSkip <= 1 << 20
 //@   track C = call (*zap.Logger).check
@@ -254,8 +260,9 @@ package zap
 //@ func (*zap.Logger).DPanic
 //@   props C06 C15 C05
 //@   flags nopanic propagates-panics
-//@   modifies $user, comp(E:zapcore.Core), comp(E:uint8), comp(E:uintptr), buffer.Buffer.bs, stacktrace.Formatter.nonEmpty
+//@   modifies $user, comp(E:zapcore.Core), comp(E:uint8), comp(E:uintptr), stacktrace.Formatter.nonEmpty
 //@   ensures elems_frame(type(zapcore.Core), zero(type([]zapcore.Core)))
+//@   ensures elems_frame(type(uint8), zero(type([]uint8)))
 //@   requires log != nil && log.core != nil && log.clock != nil && log.addStack != nil && log.errorOutput != nil
 //@   requires 0 <= log.callerSkip && log.callerSkip <= 1 << 20
 //@   track C = call (*zap.Logger).check
@@ -269,8 +276,9 @@ package zap
 //@ func (*zap.Logger).Panic
 //@   props C06 C15 C05
 //@   flags nopanic propagates-panics
-//@   modifies $user, comp(E:zapcore.Core), comp(E:uint8), comp(E:uintptr), buffer.Buffer.bs, stacktrace.Formatter.nonEmpty
+//@   modifies $user, comp(E:zapcore.Core), comp(E:uint8), comp(E:uintptr), stacktrace.Formatter.nonEmpty
 //@   ensures elems_frame(type(zapcore.Core), zero(type([]zapcore.Core)))
+//@   ensures elems_frame(type(uint8), zero(type([]uint8)))
 //@   requires log != nil && log.core != nil && log.clock != nil && log.addStack != nil && log.errorOutput != nil
 //@   requires 0 <= log.callerSkip && log.callerSkip <= 1 << 20
 //@   track C = call (*zap.Logger).check
@@ -284,8 +292,9 @@ package zap
 //@ func (*zap.Logger).Fatal
 //@   props C06 C15 C05
 //@   flags nopanic propagates-panics
-//@   modifies $user, comp(E:zapcore.Core), comp(E:uint8), comp(E:uintptr), buffer.Buffer.bs, stacktrace.Formatter.nonEmpty
+//@   modifies $user, comp(E:zapcore.Core), comp(E:uint8), comp(E:uintptr), stacktrace.Formatter.nonEmpty
 //@   ensures elems_frame(type(zapcore.Core), zero(type([]zapcore.Core)))
+//@   ensures elems_frame(type(uint8), zero(type([]uint8)))
 //@   requires log != nil && log.core != nil && log.clock != nil && log.addStack != nil && log.errorOutput != nil
 //@   requires 0 <= log.callerSkip && log.callerSkip <= 1 << 20
 //@   track C = call (*zap.Logger).check
@@ -299,8 +308,9 @@ package zap
 //@ func (*zap.Logger).Log
 //@   props C06 C15 C05
 //@   flags nopanic propagates-panics
-//@   modifies $user, comp(E:zapcore.Core), comp(E:uint8), comp(E:uintptr), buffer.Buffer.bs, stacktrace.Formatter.nonEmpty
+//@   modifies $user, comp(E:zapcore.Core), comp(E:uint8), comp(E:uintptr), stacktrace.Formatter.nonEmpty
 //@   ensures elems_frame(type(zapcore.Core), zero(type([]zapcore.Core)))
+//@   ensures elems_frame(type(uint8), zero(type([]uint8)))
 //@   requires log != nil && log.core != nil && log.clock != nil && log.addStack != nil && log.errorOutput != nil
 //@   requires 0 <= log.callerSkip && log.callerSkip <= 1 << 20
 //@   track C = call (*zap.Logger).check
@@ -322,8 +332,9 @@ package zap
 //@   flags nopanic propagates-panics
 //@   requires s != nil && s.base != nil && s.base.core != nil && s.base.clock != nil && s.base.addStack != nil && s.base.errorOutput != nil
 //@   requires 0 <= s.base.callerSkip && s.base.callerSkip <= 1 << 20
-//@   modifies $user, comp(E:zapcore.Core), comp(E:uint8), comp(E:uintptr), buffer.Buffer.bs, stacktrace.Formatter.nonEmpty, fields(zapcore.Field), fields(zap.invalidPair)
+//@   modifies $user, comp(E:zapcore.Core), comp(E:uint8), comp(E:uintptr), stacktrace.Formatter.nonEmpty, fields(zapcore.Field), fields(zap.invalidPair)
 //@   ensures elems_frame(type(zapcore.Core), zero(type([]zapcore.Core)))
+//@   ensures elems_frame(type(uint8), zero(type([]uint8)))
 //@   track DIAG = call (*zap.Logger).Error
 //@   track ANY = call zap.Any
 //@   track ARR = call zap.Array
@@ -334,6 +345,7 @@ package zap
 //@   loop 1 invariant s.base.core != nil && s.base.clock != nil && s.base.addStack != nil && s.base.errorOutput != nil && s.base.callerSkip == old(s.base.callerSkip)
 //@   loop 1 invariant #DIAG >= 0 && #ANY >= 0
 //@   loop 1 invariant elems_frame(type(zapcore.Core), zero(type([]zapcore.Core)))
+//@   loop 1 invariant elems_frame(type(uint8), zero(type([]uint8)))
 //@   loop 1 invariant i == len(fields) + #DIAG + #ANY + 2 * len(invalid)
 //@   loop 1 invariant seenError ==> len(fields) >= 1
 
@@ -374,8 +386,9 @@ package zap
 //@   flags nopanic propagates-panics
 //@   requires s != nil && s.base != nil && s.base.core != nil && s.base.clock != nil && s.base.addStack != nil && s.base.errorOutput != nil
 //@   requires 0 <= s.base.callerSkip && s.base.callerSkip <= 1 << 20
-//@   modifies $user, comp(E:zapcore.Core), comp(E:uint8), comp(E:uintptr), buffer.Buffer.bs, stacktrace.Formatter.nonEmpty, fields(zapcore.Field), fields(zap.invalidPair)
+//@   modifies $user, comp(E:zapcore.Core), comp(E:uint8), comp(E:uintptr), stacktrace.Formatter.nonEmpty, fields(zapcore.Field), fields(zap.invalidPair)
 //@   ensures elems_frame(type(zapcore.Core), zero(type([]zapcore.Core)))
+//@   ensures elems_frame(type(uint8), zero(type([]uint8)))
 //@   track GM = call zap.getMessage
 //@   track CK = call (*zap.Logger).Check
 //@   track SW = call (*zap.SugaredLogger).sweetenFields
@@ -392,8 +405,9 @@ package zap
 //@   flags nopanic propagates-panics
 //@   requires s != nil && s.base != nil && s.base.core != nil && s.base.clock != nil && s.base.addStack != nil && s.base.errorOutput != nil
 //@   requires 0 <= s.base.callerSkip && s.base.callerSkip <= 1 << 20
-//@   modifies $user, comp(E:zapcore.Core), comp(E:uint8), comp(E:uintptr), buffer.Buffer.bs, stacktrace.Formatter.nonEmpty, fields(zapcore.Field), fields(zap.invalidPair)
+//@   modifies $user, comp(E:zapcore.Core), comp(E:uint8), comp(E:uintptr), stacktrace.Formatter.nonEmpty, fields(zapcore.Field), fields(zap.invalidPair)
 //@   ensures elems_frame(type(zapcore.Core), zero(type([]zapcore.Core)))
+//@   ensures elems_frame(type(uint8), zero(type([]uint8)))
 //@   track GM = call zap.getMessageln
 //@   track CK = call (*zap.Logger).Check
 //@   track SW = call (*zap.SugaredLogger).sweetenFields
@@ -408,8 +422,9 @@ package zap
 //@   flags nopanic propagates-panics
 //@   requires s != nil && s.base != nil && s.base.core != nil && s.base.clock != nil && s.base.addStack != nil && s.base.errorOutput != nil
 //@   requires 0 <= s.base.callerSkip && s.base.callerSkip <= 1 << 20
-//@   modifies $user, comp(E:zapcore.Core), comp(E:uint8), comp(E:uintptr), buffer.Buffer.bs, stacktrace.Formatter.nonEmpty, fields(zapcore.Field), fields(zap.invalidPair)
+//@   modifies $user, comp(E:zapcore.Core), comp(E:uint8), comp(E:uintptr), stacktrace.Formatter.nonEmpty, fields(zapcore.Field), fields(zap.invalidPair)
 //@   ensures elems_frame(type(zapcore.Core), zero(type([]zapcore.Core)))
+//@   ensures elems_frame(type(uint8), zero(type([]uint8)))
 //@   track L = call (*zap.SugaredLogger).log
 //@   ensures #L == 1 && L.recv[0] == s && L.arg0[0] == zapcore.DebugLevel && L.arg1[0] == "" && L.arg2[0] == args && len(L.arg3[0]) == 0
 
@@ -418,8 +433,9 @@ package zap
 //@   flags nopanic propagates-panics
 //@   requires s != nil && s.base != nil && s.base.core != nil && s.base.clock != nil && s.base.addStack != nil && s.base.errorOutput != nil
 //@   requires 0 <= s.base.callerSkip && s.base.callerSkip <= 1 << 20
-//@   modifies $user, comp(E:zapcore.Core), comp(E:uint8), comp(E:uintptr), buffer.Buffer.bs, stacktrace.Formatter.nonEmpty, fields(zapcore.Field), fields(zap.invalidPair)
+//@   modifies $user, comp(E:zapcore.Core), comp(E:uint8), comp(E:uintptr), stacktrace.Formatter.nonEmpty, fields(zapcore.Field), fields(zap.invalidPair)
 //@   ensures elems_frame(type(zapcore.Core), zero(type([]zapcore.Core)))
+//@   ensures elems_frame(type(uint8), zero(type([]uint8)))
 //@   track L = call (*zap.SugaredLogger).log
 //@   ensures #L == 1 && L.recv[0] == s && L.arg0[0] == zapcore.DebugLevel && L.arg1[0] == template && L.arg2[0] == args && len(L.arg3[0]) == 0
 
@@ -428,8 +444,9 @@ package zap
 //@   flags nopanic propagates-panics
 //@   requires s != nil && s.base != nil && s.base.core != nil && s.base.clock != nil && s.base.addStack != nil && s.base.errorOutput != nil
 //@   requires 0 <= s.base.callerSkip && s.base.callerSkip <= 1 << 20
-//@   modifies $user, comp(E:zapcore.Core), comp(E:uint8), comp(E:uintptr), buffer.Buffer.bs, stacktrace.Formatter.nonEmpty, fields(zapcore.Field), fields(zap.invalidPair)
+//@   modifies $user, comp(E:zapcore.Core), comp(E:uint8), comp(E:uintptr), stacktrace.Formatter.nonEmpty, fields(zapcore.Field), fields(zap.invalidPair)
 //@   ensures elems_frame(type(zapcore.Core), zero(type([]zapcore.Core)))
+//@   ensures elems_frame(type(uint8), zero(type([]uint8)))
 //@   track L = call (*zap.SugaredLogger).log
 //@   ensures #L == 1 && L.recv[0] == s && L.arg0[0] == zapcore.DebugLevel && L.arg1[0] == msg && len(L.arg2[0]) == 0 && L.arg3[0] == keysAndValues
 
@@ -438,8 +455,9 @@ package zap
 //@   flags nopanic propagates-panics
 //@   requires s != nil && s.base != nil && s.base.core != nil && s.base.clock != nil && s.base.addStack != nil && s.base.errorOutput != nil
 //@   requires 0 <= s.base.callerSkip && s.base.callerSkip <= 1 << 20
-//@   modifies $user, comp(E:zapcore.Core), comp(E:uint8), comp(E:uintptr), buffer.Buffer.bs, stacktrace.Formatter.nonEmpty, fields(zapcore.Field), fields(zap.invalidPair)
+//@   modifies $user, comp(E:zapcore.Core), comp(E:uint8), comp(E:uintptr), stacktrace.Formatter.nonEmpty, fields(zapcore.Field), fields(zap.invalidPair)
 //@   ensures elems_frame(type(zapcore.Core), zero(type([]zapcore.Core)))
+//@   ensures elems_frame(type(uint8), zero(type([]uint8)))
 //@   track L = call (*zap.SugaredLogger).logln
 //@   ensures #L == 1 && L.recv[0] == s && L.arg0[0] == zapcore.DebugLevel && L.arg1[0] == args && len(L.arg2[0]) == 0
 
@@ -448,8 +466,9 @@ package zap
 //@   flags nopanic propagates-panics
 //@   requires s != nil && s.base != nil && s.base.core != nil && s.base.clock != nil && s.base.addStack != nil && s.base.errorOutput != nil
 //@   requires 0 <= s.base.callerSkip && s.base.callerSkip <= 1 << 20
-//@   modifies $user, comp(E:zapcore.Core), comp(E:uint8), comp(E:uintptr), buffer.Buffer.bs, stacktrace.Formatter.nonEmpty, fields(zapcore.Field), fields(zap.invalidPair)
+//@   modifies $user, comp(E:zapcore.Core), comp(E:uint8), comp(E:uintptr), stacktrace.Formatter.nonEmpty, fields(zapcore.Field), fields(zap.invalidPair)
 //@   ensures elems_frame(type(zapcore.Core), zero(type([]zapcore.Core)))
+//@   ensures elems_frame(type(uint8), zero(type([]uint8)))
 //@   track L = call (*zap.SugaredLogger).log
 //@   ensures #L == 1 && L.recv[0] == s && L.arg0[0] == zapcore.InfoLevel && L.arg1[0] == "" && L.arg2[0] == args && len(L.arg3[0]) == 0
 
@@ -458,8 +477,9 @@ package zap
 //@   flags nopanic propagates-panics
 //@   requires s != nil && s.base != nil && s.base.core != nil && s.base.clock != nil && s.base.addStack != nil && s.base.errorOutput != nil
 //@   requires 0 <= s.base.callerSkip && s.base.callerSkip <= 1 << 20
-//@   modifies $user, comp(E:zapcore.Core), comp(E:uint8), comp(E:uintptr), buffer.Buffer.bs, stacktrace.Formatter.nonEmpty, fields(zapcore.Field), fields(zap.invalidPair)
+//@   modifies $user, comp(E:zapcore.Core), comp(E:uint8), comp(E:uintptr), stacktrace.Formatter.nonEmpty, fields(zapcore.Field), fields(zap.invalidPair)
 //@   ensures elems_frame(type(zapcore.Core), zero(type([]zapcore.Core)))
+//@   ensures elems_frame(type(uint8), zero(type([]uint8)))
 //@   track L = call (*zap.SugaredLogger).log
 //@   ensures #L == 1 && L.recv[0] == s && L.arg0[0] == zapcore.InfoLevel && L.arg1[0] == template && L.arg2[0] == args && len(L.arg3[0]) == 0
 
@@ -468,8 +488,9 @@ package zap
 //@   flags nopanic propagates-panics
 //@   requires s != nil && s.base != nil && s.base.core != nil && s.base.clock != nil && s.base.addStack != nil && s.base.errorOutput != nil
 //@   requires 0 <= s.base.callerSkip && s.base.callerSkip <= 1 << 20
-//@   modifies $user, comp(E:zapcore.Core), comp(E:uint8), comp(E:uintptr), buffer.Buffer.bs, stacktrace.Formatter.nonEmpty, fields(zapcore.Field), fields(zap.invalidPair)
+//@   modifies $user, comp(E:zapcore.Core), comp(E:uint8), comp(E:uintptr), stacktrace.Formatter.nonEmpty, fields(zapcore.Field), fields(zap.invalidPair)
 //@   ensures elems_frame(type(zapcore.Core), zero(type([]zapcore.Core)))
+//@   ensures elems_frame(type(uint8), zero(type([]uint8)))
 //@   track L = call (*zap.SugaredLogger).log
 //@   ensures #L == 1 && L.recv[0] == s && L.arg0[0] == zapcore.InfoLevel && L.arg1[0] == msg && len(L.arg2[0]) == 0 && L.arg3[0] == keysAndValues
 
@@ -478,8 +499,9 @@ package zap
 //@   flags nopanic propagates-panics
 //@   requires s != nil && s.base != nil && s.base.core != nil && s.base.clock != nil && s.base.addStack != nil && s.base.errorOutput != nil
 //@   requires 0 <= s.base.callerSkip && s.base.callerSkip <= 1 << 20
-//@   modifies $user, comp(E:zapcore.Core), comp(E:uint8), comp(E:uintptr), buffer.Buffer.bs, stacktrace.Formatter.nonEmpty, fields(zapcore.Field), fields(zap.invalidPair)
+//@   modifies $user, comp(E:zapcore.Core), comp(E:uint8), comp(E:uintptr), stacktrace.Formatter.nonEmpty, fields(zapcore.Field), fields(zap.invalidPair)
 //@   ensures elems_frame(type(zapcore.Core), zero(type([]zapcore.Core)))
+//@   ensures elems_frame(type(uint8), zero(type([]uint8)))
 //@   track L = call (*zap.SugaredLogger).logln
 //@   ensures #L == 1 && L.recv[0] == s && L.arg0[0] == zapcore.InfoLevel && L.arg1[0] == args && len(L.arg2[0]) == 0
 
@@ -488,8 +510,9 @@ package zap
 //@   flags nopanic propagates-panics
 //@   requires s != nil && s.base != nil && s.base.core != nil && s.base.clock != nil && s.base.addStack != nil && s.base.errorOutput != nil
 //@   requires 0 <= s.base.callerSkip && s.base.callerSkip <= 1 << 20
-//@   modifies $user, comp(E:zapcore.Core), comp(E:uint8), comp(E:uintptr), buffer.Buffer.bs, stacktrace.Formatter.nonEmpty, fields(zapcore.Field), fields(zap.invalidPair)
+//@   modifies $user, comp(E:zapcore.Core), comp(E:uint8), comp(E:uintptr), stacktrace.Formatter.nonEmpty, fields(zapcore.Field), fields(zap.invalidPair)
 //@   ensures elems_frame(type(zapcore.Core), zero(type([]zapcore.Core)))
+//@   ensures elems_frame(type(uint8), zero(type([]uint8)))
 //@   track L = call (*zap.SugaredLogger).log
 //@   ensures #L == 1 && L.recv[0] == s && L.arg0[0] == zapcore.WarnLevel && L.arg1[0] == "" && L.arg2[0] == args && len(L.arg3[0]) == 0
 
@@ -498,8 +521,9 @@ package zap
 //@   flags nopanic propagates-panics
 //@   requires s != nil && s.base != nil && s.base.core != nil && s.base.clock != nil && s.base.addStack != nil && s.base.errorOutput != nil
 //@   requires 0 <= s.base.callerSkip && s.base.callerSkip <= 1 << 20
-//@   modifies $user, comp(E:zapcore.Core), comp(E:uint8), comp(E:uintptr), buffer.Buffer.bs, stacktrace.Formatter.nonEmpty, fields(zapcore.Field), fields(zap.invalidPair)
+//@   modifies $user, comp(E:zapcore.Core), comp(E:uint8), comp(E:uintptr), stacktrace.Formatter.nonEmpty, fields(zapcore.Field), fields(zap.invalidPair)
 //@   ensures elems_frame(type(zapcore.Core), zero(type([]zapcore.Core)))
+//@   ensures elems_frame(type(uint8), zero(type([]uint8)))
 //@   track L = call (*zap.SugaredLogger).log
 //@   ensures #L == 1 && L.recv[0] == s && L.arg0[0] == zapcore.WarnLevel && L.arg1[0] == template && L.arg2[0] == args && len(L.arg3[0]) == 0
 
@@ -508,8 +532,9 @@ package zap
 //@   flags nopanic propagates-panics
 //@   requires s != nil && s.base != nil && s.base.core != nil && s.base.clock != nil && s.base.addStack != nil && s.base.errorOutput != nil
 //@   requires 0 <= s.base.callerSkip && s.base.callerSkip <= 1 << 20
-//@   modifies $user, comp(E:zapcore.Core), comp(E:uint8), comp(E:uintptr), buffer.Buffer.bs, stacktrace.Formatter.nonEmpty, fields(zapcore.Field), fields(zap.invalidPair)
+//@   modifies $user, comp(E:zapcore.Core), comp(E:uint8), comp(E:uintptr), stacktrace.Formatter.nonEmpty, fields(zapcore.Field), fields(zap.invalidPair)
 //@   ensures elems_frame(type(zapcore.Core), zero(type([]zapcore.Core)))
+//@   ensures elems_frame(type(uint8), zero(type([]uint8)))
 //@   track L = call (*zap.SugaredLogger).log
 //@   ensures #L == 1 && L.recv[0] == s && L.arg0[0] == zapcore.WarnLevel && L.arg1[0] == msg && len(L.arg2[0]) == 0 && L.arg3[0] == keysAndValues
 
@@ -518,8 +543,9 @@ package zap
 //@   flags nopanic propagates-panics
 //@   requires s != nil && s.base != nil && s.base.core != nil && s.base.clock != nil && s.base.addStack != nil && s.base.errorOutput != nil
 //@   requires 0 <= s.base.callerSkip && s.base.callerSkip <= 1 << 20
-//@   modifies $user, comp(E:zapcore.Core), comp(E:uint8), comp(E:uintptr), buffer.Buffer.bs, stacktrace.Formatter.nonEmpty, fields(zapcore.Field), fields(zap.invalidPair)
+//@   modifies $user, comp(E:zapcore.Core), comp(E:uint8), comp(E:uintptr), stacktrace.Formatter.nonEmpty, fields(zapcore.Field), fields(zap.invalidPair)
 //@   ensures elems_frame(type(zapcore.Core), zero(type([]zapcore.Core)))
+//@   ensures elems_frame(type(uint8), zero(type([]uint8)))
 //@   track L = call (*zap.SugaredLogger).logln
 //@   ensures #L == 1 && L.recv[0] == s && L.arg0[0] == zapcore.WarnLevel && L.arg1[0] == args && len(L.arg2[0]) == 0
 
@@ -528,8 +554,9 @@ package zap
 //@   flags nopanic propagates-panics
 //@   requires s != nil && s.base != nil && s.base.core != nil && s.base.clock != nil && s.base.addStack != nil && s.base.errorOutput != nil
 //@   requires 0 <= s.base.callerSkip && s.base.callerSkip <= 1 << 20
-//@   modifies $user, comp(E:zapcore.Core), comp(E:uint8), comp(E:uintptr), buffer.Buffer.bs, stacktrace.Formatter.nonEmpty, fields(zapcore.Field), fields(zap.invalidPair)
+//@   modifies $user, comp(E:zapcore.Core), comp(E:uint8), comp(E:uintptr), stacktrace.Formatter.nonEmpty, fields(zapcore.Field), fields(zap.invalidPair)
 //@   ensures elems_frame(type(zapcore.Core), zero(type([]zapcore.Core)))
+//@   ensures elems_frame(type(uint8), zero(type([]uint8)))
 //@   track L = call (*zap.SugaredLogger).log
 //@   ensures #L == 1 && L.recv[0] == s && L.arg0[0] == zapcore.ErrorLevel && L.arg1[0] == "" && L.arg2[0] == args && len(L.arg3[0]) == 0
 
@@ -538,8 +565,9 @@ package zap
 //@   flags nopanic propagates-panics
 //@   requires s != nil && s.base != nil && s.base.core != nil && s.base.clock != nil && s.base.addStack != nil && s.base.errorOutput != nil
 //@   requires 0 <= s.base.callerSkip && s.base.callerSkip <= 1 << 20
-//@   modifies $user, comp(E:zapcore.Core), comp(E:uint8), comp(E:uintptr), buffer.Buffer.bs, stacktrace.Formatter.nonEmpty, fields(zapcore.Field), fields(zap.invalidPair)
+//@   modifies $user, comp(E:zapcore.Core), comp(E:uint8), comp(E:uintptr), stacktrace.Formatter.nonEmpty, fields(zapcore.Field), fields(zap.invalidPair)
 //@   ensures elems_frame(type(zapcore.Core), zero(type([]zapcore.Core)))
+//@   ensures elems_frame(type(uint8), zero(type([]uint8)))
 //@   track L = call (*zap.SugaredLogger).log
 //@   ensures #L == 1 && L.recv[0] == s && L.arg0[0] == zapcore.ErrorLevel && L.arg1[0] == template && L.arg2[0] == args && len(L.arg3[0]) == 0
 
@@ -548,8 +576,9 @@ package zap
 //@   flags nopanic propagates-panics
 //@   requires s != nil && s.base != nil && s.base.core != nil && s.base.clock != nil && s.base.addStack != nil && s.base.errorOutput != nil
 //@   requires 0 <= s.base.callerSkip && s.base.callerSkip <= 1 << 20
-//@   modifies $user, comp(E:zapcore.Core), comp(E:uint8), comp(E:uintptr), buffer.Buffer.bs, stacktrace.Formatter.nonEmpty, fields(zapcore.Field), fields(zap.invalidPair)
+//@   modifies $user, comp(E:zapcore.Core), comp(E:uint8), comp(E:uintptr), stacktrace.Formatter.nonEmpty, fields(zapcore.Field), fields(zap.invalidPair)
 //@   ensures elems_frame(type(zapcore.Core), zero(type([]zapcore.Core)))
+//@   ensures elems_frame(type(uint8), zero(type([]uint8)))
 //@   track L = call (*zap.SugaredLogger).log
 //@   ensures #L == 1 && L.recv[0] == s && L.arg0[0] == zapcore.ErrorLevel && L.arg1[0] == msg && len(L.arg2[0]) == 0 && L.arg3[0] == keysAndValues
 
@@ -558,8 +587,9 @@ package zap
 //@   flags nopanic propagates-panics
 //@   requires s != nil && s.base != nil && s.base.core != nil && s.base.clock != nil && s.base.addStack != nil && s.base.errorOutput != nil
 //@   requires 0 <= s.base.callerSkip && s.base.callerSkip <= 1 << 20
-//@   modifies $user, comp(E:zapcore.Core), comp(E:uint8), comp(E:uintptr), buffer.Buffer.bs, stacktrace.Formatter.nonEmpty, fields(zapcore.Field), fields(zap.invalidPair)
+//@   modifies $user, comp(E:zapcore.Core), comp(E:uint8), comp(E:uintptr), stacktrace.Formatter.nonEmpty, fields(zapcore.Field), fields(zap.invalidPair)
 //@   ensures elems_frame(type(zapcore.Core), zero(type([]zapcore.Core)))
+//@   ensures elems_frame(type(uint8), zero(type([]uint8)))
 //@   track L = call (*zap.SugaredLogger).logln
 //@   ensures #L == 1 && L.recv[0] == s && L.arg0[0] == zapcore.ErrorLevel && L.arg1[0] == args && len(L.arg2[0]) == 0
 
@@ -568,8 +598,9 @@ package zap
 //@   flags nopanic propagates-panics
 //@   requires s != nil && s.base != nil && s.base.core != nil && s.base.clock != nil && s.base.addStack != nil && s.base.errorOutput != nil
 //@   requires 0 <= s.base.callerSkip && s.base.callerSkip <= 1 << 20
-//@   modifies $user, comp(E:zapcore.Core), comp(E:uint8), comp(E:uintptr), buffer.Buffer.bs, stacktrace.Formatter.nonEmpty, fields(zapcore.Field), fields(zap.invalidPair)
+//@   modifies $user, comp(E:zapcore.Core), comp(E:uint8), comp(E:uintptr), stacktrace.Formatter.nonEmpty, fields(zapcore.Field), fields(zap.invalidPair)
 //@   ensures elems_frame(type(zapcore.Core), zero(type([]zapcore.Core)))
+//@   ensures elems_frame(type(uint8), zero(type([]uint8)))
 //@   track L = call (*zap.SugaredLogger).log
 //@   ensures #L == 1 && L.recv[0] == s && L.arg0[0] == zapcore.DPanicLevel && L.arg1[0] == "" && L.arg2[0] == args && len(L.arg3[0]) == 0
 
@@ -578,8 +609,9 @@ package zap
 //@   flags nopanic propagates-panics
 //@   requires s != nil && s.base != nil && s.base.core != nil && s.base.clock != nil && s.base.addStack != nil && s.base.errorOutput != nil
 //@   requires 0 <= s.base.callerSkip && s.base.callerSkip <= 1 << 20
-//@   modifies $user, comp(E:zapcore.Core), comp(E:uint8), comp(E:uintptr), buffer.Buffer.bs, stacktrace.Formatter.nonEmpty, fields(zapcore.Field), fields(zap.invalidPair)
+//@   modifies $user, comp(E:zapcore.Core), comp(E:uint8), comp(E:uintptr), stacktrace.Formatter.nonEmpty, fields(zapcore.Field), fields(zap.invalidPair)
 //@   ensures elems_frame(type(zapcore.Core), zero(type([]zapcore.Core)))
+//@   ensures elems_frame(type(uint8), zero(type([]uint8)))
 //@   track L = call (*zap.SugaredLogger).log
 //@   ensures #L == 1 && L.recv[0] == s && L.arg0[0] == zapcore.DPanicLevel && L.arg1[0] == template && L.arg2[0] == args && len(L.arg3[0]) == 0
 
@@ -588,8 +620,9 @@ package zap
 //@   flags nopanic propagates-panics
 //@   requires s != nil && s.base != nil && s.base.core != nil && s.base.clock != nil && s.base.addStack != nil && s.base.errorOutput != nil
 //@   requires 0 <= s.base.callerSkip && s.base.callerSkip <= 1 << 20
-//@   modifies $user, comp(E:zapcore.Core), comp(E:uint8), comp(E:uintptr), buffer.Buffer.bs, stacktrace.Formatter.nonEmpty, fields(zapcore.Field), fields(zap.invalidPair)
+//@   modifies $user, comp(E:zapcore.Core), comp(E:uint8), comp(E:uintptr), stacktrace.Formatter.nonEmpty, fields(zapcore.Field), fields(zap.invalidPair)
 //@   ensures elems_frame(type(zapcore.Core), zero(type([]zapcore.Core)))
+//@   ensures elems_frame(type(uint8), zero(type([]uint8)))
 //@   track L = call (*zap.SugaredLogger).log
 //@   ensures #L == 1 && L.recv[0] == s && L.arg0[0] == zapcore.DPanicLevel && L.arg1[0] == msg && len(L.arg2[0]) == 0 && L.arg3[0] == keysAndValues
 
@@ -598,8 +631,9 @@ package zap
 //@   flags nopanic propagates-panics
 //@   requires s != nil && s.base != nil && s.base.core != nil && s.base.clock != nil && s.base.addStack != nil && s.base.errorOutput != nil
 //@   requires 0 <= s.base.callerSkip && s.base.callerSkip <= 1 << 20
-//@   modifies $user, comp(E:zapcore.Core), comp(E:uint8), comp(E:uintptr), buffer.Buffer.bs, stacktrace.Formatter.nonEmpty, fields(zapcore.Field), fields(zap.invalidPair)
+//@   modifies $user, comp(E:zapcore.Core), comp(E:uint8), comp(E:uintptr), stacktrace.Formatter.nonEmpty, fields(zapcore.Field), fields(zap.invalidPair)
 //@   ensures elems_frame(type(zapcore.Core), zero(type([]zapcore.Core)))
+//@   ensures elems_frame(type(uint8), zero(type([]uint8)))
 //@   track L = call (*zap.SugaredLogger).logln
 //@   ensures #L == 1 && L.recv[0] == s && L.arg0[0] == zapcore.DPanicLevel && L.arg1[0] == args && len(L.arg2[0]) == 0
 
@@ -608,8 +642,9 @@ package zap
 //@   flags nopanic propagates-panics
 //@   requires s != nil && s.base != nil && s.base.core != nil && s.base.clock != nil && s.base.addStack != nil && s.base.errorOutput != nil
 //@   requires 0 <= s.base.callerSkip && s.base.callerSkip <= 1 << 20
-//@   modifies $user, comp(E:zapcore.Core), comp(E:uint8), comp(E:uintptr), buffer.Buffer.bs, stacktrace.Formatter.nonEmpty, fields(zapcore.Field), fields(zap.invalidPair)
+//@   modifies $user, comp(E:zapcore.Core), comp(E:uint8), comp(E:uintptr), stacktrace.Formatter.nonEmpty, fields(zapcore.Field), fields(zap.invalidPair)
 //@   ensures elems_frame(type(zapcore.Core), zero(type([]zapcore.Core)))
+//@   ensures elems_frame(type(uint8), zero(type([]uint8)))
 //@   track L = call (*zap.SugaredLogger).log
 //@   ensures #L == 1 && L.recv[0] == s && L.arg0[0] == zapcore.PanicLevel && L.arg1[0] == "" && L.arg2[0] == args && len(L.arg3[0]) == 0
 
@@ -618,8 +653,9 @@ package zap
 //@   flags nopanic propagates-panics
 //@   requires s != nil && s.base != nil && s.base.core != nil && s.base.clock != nil && s.base.addStack != nil && s.base.errorOutput != nil
 //@   requires 0 <= s.base.callerSkip && s.base.callerSkip <= 1 << 20
-//@   modifies $user, comp(E:zapcore.Core), comp(E:uint8), comp(E:uintptr), buffer.Buffer.bs, stacktrace.Formatter.nonEmpty, fields(zapcore.Field), fields(zap.invalidPair)
+//@   modifies $user, comp(E:zapcore.Core), comp(E:uint8), comp(E:uintptr), stacktrace.Formatter.nonEmpty, fields(zapcore.Field), fields(zap.invalidPair)
 //@   ensures elems_frame(type(zapcore.Core), zero(type([]zapcore.Core)))
+//@   ensures elems_frame(type(uint8), zero(type([]uint8)))
 //@   track L = call (*zap.SugaredLogger).log
 //@   ensures #L == 1 && L.recv[0] == s && L.arg0[0] == zapcore.PanicLevel && L.arg1[0] == template && L.arg2[0] == args && len(L.arg3[0]) == 0
 
@@ -628,8 +664,9 @@ package zap
 //@   flags nopanic propagates-panics
 //@   requires s != nil && s.base != nil && s.base.core != nil && s.base.clock != nil && s.base.addStack != nil && s.base.errorOutput != nil
 //@   requires 0 <= s.base.callerSkip && s.base.callerSkip <= 1 << 20
-//@   modifies $user, comp(E:zapcore.Core), comp(E:uint8), comp(E:uintptr), buffer.Buffer.bs, stacktrace.Formatter.nonEmpty, fields(zapcore.Field), fields(zap.invalidPair)
+//@   modifies $user, comp(E:zapcore.Core), comp(E:uint8), comp(E:uintptr), stacktrace.Formatter.nonEmpty, fields(zapcore.Field), fields(zap.invalidPair)
 //@   ensures elems_frame(type(zapcore.Core), zero(type([]zapcore.Core)))
+//@   ensures elems_frame(type(uint8), zero(type([]uint8)))
 //@   track L = call (*zap.SugaredLogger).log
 //@   ensures #L == 1 && L.recv[0] == s && L.arg0[0] == zapcore.PanicLevel && L.arg1[0] == msg && len(L.arg2[0]) == 0 && L.arg3[0] == keysAndValues
 
@@ -638,8 +675,9 @@ package zap
 //@   flags nopanic propagates-panics
 //@   requires s != nil && s.base != nil && s.base.core != nil && s.base.clock != nil && s.base.addStack != nil && s.base.errorOutput != nil
 //@   requires 0 <= s.base.callerSkip && s.base.callerSkip <= 1 << 20
-//@   modifies $user, comp(E:zapcore.Core), comp(E:uint8), comp(E:uintptr), buffer.Buffer.bs, stacktrace.Formatter.nonEmpty, fields(zapcore.Field), fields(zap.invalidPair)
+//@   modifies $user, comp(E:zapcore.Core), comp(E:uint8), comp(E:uintptr), stacktrace.Formatter.nonEmpty, fields(zapcore.Field), fields(zap.invalidPair)
 //@   ensures elems_frame(type(zapcore.Core), zero(type([]zapcore.Core)))
+//@   ensures elems_frame(type(uint8), zero(type([]uint8)))
 //@   track L = call (*zap.SugaredLogger).logln
 //@   ensures #L == 1 && L.recv[0] == s && L.arg0[0] == zapcore.PanicLevel && L.arg1[0] == args && len(L.arg2[0]) == 0
 
@@ -648,8 +686,9 @@ package zap
 //@   flags nopanic propagates-panics
 //@   requires s != nil && s.base != nil && s.base.core != nil && s.base.clock != nil && s.base.addStack != nil && s.base.errorOutput != nil
 //@   requires 0 <= s.base.callerSkip && s.base.callerSkip <= 1 << 20
-//@   modifies $user, comp(E:zapcore.Core), comp(E:uint8), comp(E:uintptr), buffer.Buffer.bs, stacktrace.Formatter.nonEmpty, fields(zapcore.Field), fields(zap.invalidPair)
+//@   modifies $user, comp(E:zapcore.Core), comp(E:uint8), comp(E:uintptr), stacktrace.Formatter.nonEmpty, fields(zapcore.Field), fields(zap.invalidPair)
 //@   ensures elems_frame(type(zapcore.Core), zero(type([]zapcore.Core)))
+//@   ensures elems_frame(type(uint8), zero(type([]uint8)))
 //@   track L = call (*zap.SugaredLogger).log
 //@   ensures #L == 1 && L.recv[0] == s && L.arg0[0] == zapcore.FatalLevel && L.arg1[0] == "" && L.arg2[0] == args && len(L.arg3[0]) == 0
 
@@ -658,8 +697,9 @@ package zap
 //@   flags nopanic propagates-panics
 //@   requires s != nil && s.base != nil && s.base.core != nil && s.base.clock != nil && s.base.addStack != nil && s.base.errorOutput != nil
 //@   requires 0 <= s.base.callerSkip && s.base.callerSkip <= 1 << 20
-//@   modifies $user, comp(E:zapcore.Core), comp(E:uint8), comp(E:uintptr), buffer.Buffer.bs, stacktrace.Formatter.nonEmpty, fields(zapcore.Field), fields(zap.invalidPair)
+//@   modifies $user, comp(E:zapcore.Core), comp(E:uint8), comp(E:uintptr), stacktrace.Formatter.nonEmpty, fields(zapcore.Field), fields(zap.invalidPair)
 //@   ensures elems_frame(type(zapcore.Core), zero(type([]zapcore.Core)))
+//@   ensures elems_frame(type(uint8), zero(type([]uint8)))
 //@   track L = call (*zap.SugaredLogger).log
 //@   ensures #L == 1 && L.recv[0] == s && L.arg0[0] == zapcore.FatalLevel && L.arg1[0] == template && L.arg2[0] == args && len(L.arg3[0]) == 0
 
@@ -668,8 +708,9 @@ package zap
 //@   flags nopanic propagates-panics
 //@   requires s != nil && s.base != nil && s.base.core != nil && s.base.clock != nil && s.base.addStack != nil && s.base.errorOutput != nil
 //@   requires 0 <= s.base.callerSkip && s.base.callerSkip <= 1 << 20
-//@   modifies $user, comp(E:zapcore.Core), comp(E:uint8), comp(E:uintptr), buffer.Buffer.bs, stacktrace.Formatter.nonEmpty, fields(zapcore.Field), fields(zap.invalidPair)
+//@   modifies $user, comp(E:zapcore.Core), comp(E:uint8), comp(E:uintptr), stacktrace.Formatter.nonEmpty, fields(zapcore.Field), fields(zap.invalidPair)
 //@   ensures elems_frame(type(zapcore.Core), zero(type([]zapcore.Core)))
+//@   ensures elems_frame(type(uint8), zero(type([]uint8)))
 //@   track L = call (*zap.SugaredLogger).log
 //@   ensures #L == 1 && L.recv[0] == s && L.arg0[0] == zapcore.FatalLevel && L.arg1[0] == msg && len(L.arg2[0]) == 0 && L.arg3[0] == keysAndValues
 
@@ -678,8 +719,9 @@ package zap
 //@   flags nopanic propagates-panics
 //@   requires s != nil && s.base != nil && s.base.core != nil && s.base.clock != nil && s.base.addStack != nil && s.base.errorOutput != nil
 //@   requires 0 <= s.base.callerSkip && s.base.callerSkip <= 1 << 20
-//@   modifies $user, comp(E:zapcore.Core), comp(E:uint8), comp(E:uintptr), buffer.Buffer.bs, stacktrace.Formatter.nonEmpty, fields(zapcore.Field), fields(zap.invalidPair)
+//@   modifies $user, comp(E:zapcore.Core), comp(E:uint8), comp(E:uintptr), stacktrace.Formatter.nonEmpty, fields(zapcore.Field), fields(zap.invalidPair)
 //@   ensures elems_frame(type(zapcore.Core), zero(type([]zapcore.Core)))
+//@   ensures elems_frame(type(uint8), zero(type([]uint8)))
 //@   track L = call (*zap.SugaredLogger).logln
 //@   ensures #L == 1 && L.recv[0] == s && L.arg0[0] == zapcore.FatalLevel && L.arg1[0] == args && len(L.arg2[0]) == 0
 
@@ -688,8 +730,9 @@ package zap
 //@   flags nopanic propagates-panics
 //@   requires s != nil && s.base != nil && s.base.core != nil && s.base.clock != nil && s.base.addStack != nil && s.base.errorOutput != nil
 //@   requires 0 <= s.base.callerSkip && s.base.callerSkip <= 1 << 20
-//@   modifies $user, comp(E:zapcore.Core), comp(E:uint8), comp(E:uintptr), buffer.Buffer.bs, stacktrace.Formatter.nonEmpty, fields(zapcore.Field), fields(zap.invalidPair)
+//@   modifies $user, comp(E:zapcore.Core), comp(E:uint8), comp(E:uintptr), stacktrace.Formatter.nonEmpty, fields(zapcore.Field), fields(zap.invalidPair)
 //@   ensures elems_frame(type(zapcore.Core), zero(type([]zapcore.Core)))
+//@   ensures elems_frame(type(uint8), zero(type([]uint8)))
 //@   track L = call (*zap.SugaredLogger).log
 //@   ensures #L == 1 && L.recv[0] == s && L.arg0[0] == lvl && L.arg1[0] == "" && L.arg2[0] == args && len(L.arg3[0]) == 0
 
@@ -698,8 +741,9 @@ package zap
 //@   flags nopanic propagates-panics
 //@   requires s != nil && s.base != nil && s.base.core != nil && s.base.clock != nil && s.base.addStack != nil && s.base.errorOutput != nil
 //@   requires 0 <= s.base.callerSkip && s.base.callerSkip <= 1 << 20
-//@   modifies $user, comp(E:zapcore.Core), comp(E:uint8), comp(E:uintptr), buffer.Buffer.bs, stacktrace.Formatter.nonEmpty, fields(zapcore.Field), fields(zap.invalidPair)
+//@   modifies $user, comp(E:zapcore.Core), comp(E:uint8), comp(E:uintptr), stacktrace.Formatter.nonEmpty, fields(zapcore.Field), fields(zap.invalidPair)
 //@   ensures elems_frame(type(zapcore.Core), zero(type([]zapcore.Core)))
+//@   ensures elems_frame(type(uint8), zero(type([]uint8)))
 //@   track L = call (*zap.SugaredLogger).log
 //@   ensures #L == 1 && L.recv[0] == s && L.arg0[0] == lvl && L.arg1[0] == template && L.arg2[0] == args && len(L.arg3[0]) == 0
 
@@ -708,8 +752,9 @@ package zap
 //@   flags nopanic propagates-panics
 //@   requires s != nil && s.base != nil && s.base.core != nil && s.base.clock != nil && s.base.addStack != nil && s.base.errorOutput != nil
 //@   requires 0 <= s.base.callerSkip && s.base.callerSkip <= 1 << 20
-//@   modifies $user, comp(E:zapcore.Core), comp(E:uint8), comp(E:uintptr), buffer.Buffer.bs, stacktrace.Formatter.nonEmpty, fields(zapcore.Field), fields(zap.invalidPair)
+//@   modifies $user, comp(E:zapcore.Core), comp(E:uint8), comp(E:uintptr), stacktrace.Formatter.nonEmpty, fields(zapcore.Field), fields(zap.invalidPair)
 //@   ensures elems_frame(type(zapcore.Core), zero(type([]zapcore.Core)))
+//@   ensures elems_frame(type(uint8), zero(type([]uint8)))
 //@   track L = call (*zap.SugaredLogger).log
 //@   ensures #L == 1 && L.recv[0] == s && L.arg0[0] == lvl && L.arg1[0] == msg && len(L.arg2[0]) == 0 && L.arg3[0] == keysAndValues
 
@@ -718,8 +763,9 @@ package zap
 //@   flags nopanic propagates-panics
 //@   requires s != nil && s.base != nil && s.base.core != nil && s.base.clock != nil && s.base.addStack != nil && s.base.errorOutput != nil
 //@   requires 0 <= s.base.callerSkip && s.base.callerSkip <= 1 << 20
-//@   modifies $user, comp(E:zapcore.Core), comp(E:uint8), comp(E:uintptr), buffer.Buffer.bs, stacktrace.Formatter.nonEmpty, fields(zapcore.Field), fields(zap.invalidPair)
+//@   modifies $user, comp(E:zapcore.Core), comp(E:uint8), comp(E:uintptr), stacktrace.Formatter.nonEmpty, fields(zapcore.Field), fields(zap.invalidPair)
 //@   ensures elems_frame(type(zapcore.Core), zero(type([]zapcore.Core)))
+//@   ensures elems_frame(type(uint8), zero(type([]uint8)))
 //@   track L = call (*zap.SugaredLogger).logln
 //@   ensures #L == 1 && L.recv[0] == s && L.arg0[0] == lvl && L.arg1[0] == args && len(L.arg2[0]) == 0
 
@@ -764,9 +810,9 @@ package zap
 //@   props C15
 //@   flags nopanic
 //@   requires log != nil
-//@   requires -1000000 <= skip && skip <= 1000000 && -1000000 <= log.callerSkip && log.callerSkip <= 1000000
+//@   requires -1000000 <= *skip && *skip <= 1000000 && -1000000 <= log.callerSkip && log.callerSkip <= 1000000
 //@   modifies log.callerSkip
-//@   ensures log.callerSkip == old(log.callerSkip) + skip
+//@   ensures log.callerSkip == old(log.callerSkip) + old(*skip)
 
 //@ func zap.levelToFunc
 //@   props C19 C06
@@ -1014,3 +1060,65 @@ package zap
 //@   ensures encoderConfig.TimeKey != "" && encoderConfig.EncodeTime == nil ==> result.1 != nil && result.0 == nil
 //@   ensures name == "" ==> result.1 != nil
 //@   ensures !old(has(_encoderNameToConstructor, name)) ==> result.1 != nil && result.0 == nil
+
+// ---------------------------------------------------------------------------
+// Derivation: Sugar/Desugar/Named/With (C07, C15)
+//
+// Caller arithmetic (C15). A sugared front-end method reaches Logger.check through three
+// frames (method, log/logln, Logger.Check) where a Logger front end has one; Sugar therefore
+// adds exactly 2 to callerSkip and Desugar removes exactly 2, so that any conversion chain
+// leaves "callerSkip - (frames between the user and check) + 1" invariant. The call structure
+// itself is machine-checked by the tracks of the front-end contracts (#C == 1, #L == 1, #CK == 1).
+
+//@ func (*zap.Logger).Sugar
+//@   props C15 C07
+//@   flags nopanic
+//@   requires log != nil && -1000000 <= log.callerSkip && log.callerSkip <= 1000000
+//@   modifies nothing
+//@   ensures fresh(result) && fresh(result.base)
+//@   ensures result.base.callerSkip == old(log.callerSkip) + 2
+//@   ensures result.base.core == old(log.core) && result.base.name == old(log.name) && result.base.development == old(log.development) && result.base.addCaller == old(log.addCaller) && result.base.onPanic == old(log.onPanic) && result.base.onFatal == old(log.onFatal) && result.base.errorOutput == old(log.errorOutput) && result.base.addStack == old(log.addStack) && result.base.clock == old(log.clock)
+//@   ensures *log == old(*log)
+
+//@ func (*zap.SugaredLogger).Desugar
+//@   props C15 C07
+//@   flags nopanic
+//@   requires s != nil && s.base != nil && -1000000 <= s.base.callerSkip && s.base.callerSkip <= 1000000
+//@   modifies nothing
+//@   ensures fresh(result)
+//@   ensures result.callerSkip == old(s.base.callerSkip) - 2
+//@   ensures result.core == old(s.base.core) && result.name == old(s.base.name) && result.development == old(s.base.development) && result.addCaller == old(s.base.addCaller) && result.onPanic == old(s.base.onPanic) && result.onFatal == old(s.base.onFatal) && result.errorOutput == old(s.base.errorOutput) && result.addStack == old(s.base.addStack) && result.clock == old(s.base.clock)
+//@   ensures *s.base == old(*s.base)
+
+// Round trip: Desugar(Sugar(l)) reports the same caller as l.
+//@ lemma sugar_desugar_skip
+//@   props C15
+//@   statement forall k int :: (k + 2) - 2 == k
+
+//@ func (*zap.Logger).Named
+//@   props C07
+//@   flags nopanic
+//@   requires log != nil
+//@   modifies nothing
+//@   ensures s == "" ==> result == log
+//@   ensures s != "" ==> fresh(result) && result.core == old(log.core) && result.callerSkip == old(log.callerSkip) && result.development == old(log.development) && result.addCaller == old(log.addCaller) && result.onPanic == old(log.onPanic) && result.onFatal == old(log.onFatal) && result.errorOutput == old(log.errorOutput) && result.addStack == old(log.addStack) && result.clock == old(log.clock)
+//@   ensures s != "" && old(log.name) == "" ==> result.name == s
+//@   ensures s != "" && old(log.name) != "" ==> result.name == cat(old(log.name), ".", s)
+//@   ensures *log == old(*log)
+
+// Core.With: the derived core is a new value; the receiver is not modified (frame).
+//@ iface zapcore.Core.With
+//@   params fields
+//@   modifies $user, comp(E:uint8)
+//@   ensures result != nil
+//@   ensures elems_frame(type(uint8), zero(type([]uint8)))
+
+//@ func (*zap.Logger).With
+//@   props C07
+//@   flags nopanic
+//@   requires log != nil && log.core != nil
+//@   track W = invoke zapcore.Core.With
+//@   modifies $user, comp(E:uint8)
+//@   ensures len(fields) == 0 ==> result == log && #W == 0
+//@   ensures len(fields) > 0 ==> fresh(result) && #W == 1 && W.recv[0] == old(log.core) && W.arg0[0] == fields && result.core == W.ret0[0] && result.name == old(log.name) && result.callerSkip == old(log.callerSkip) && result.development == old(log.development) && result.addCaller == old(log.addCaller) && result.onPanic == old(log.onPanic) && result.onFatal == old(log.onFatal) && result.errorOutput == old(log.errorOutput) && result.addStack == old(log.addStack) && result.clock == old(log.clock)
+//@   ensures *log == old(*log)
